@@ -155,11 +155,13 @@ pub struct E2e {
     /// the spin threads at positions >= 20 (or all, for small N) have their stack pointer BELOW their
     /// stack region, inside the inaccessible guard page in front of it (an overflowed stack)
     below: bool,
+    /// the first spin thread's stack region is larger than 4 MiB (1300 pages of non-repeating content)
+    big: bool,
 }
 
 impl E2e {
     fn to_json(&self) -> Value {
-        json!({"e2e": {"n": self.n, "offsets": self.offsets, "limit": self.limit, "ctx_pos": self.ctx_pos, "sanitize": self.sanitize, "low": self.low, "below": self.below}})
+        json!({"e2e": {"n": self.n, "offsets": self.offsets, "limit": self.limit, "ctx_pos": self.ctx_pos, "sanitize": self.sanitize, "low": self.low, "below": self.below, "big": self.big}})
     }
     fn from_json(v: &Value) -> Option<E2e> {
         let e = v.get("e2e")?;
@@ -171,6 +173,7 @@ impl E2e {
             sanitize: e.get("sanitize")?.as_bool()?,
             low: e.get("low").and_then(|x| x.as_bool()).unwrap_or(false),
             below: e.get("below").and_then(|x| x.as_bool()).unwrap_or(false),
+            big: e.get("big").and_then(|x| x.as_bool()).unwrap_or(false),
         })
     }
 }
@@ -188,6 +191,8 @@ fn run_e2e(c: &E2e) -> Vec<(String, String)> {
     for i in 0..c.n.saturating_sub(1) {
         let region = if c.low && i < 2 {
             p.cmd(&format!("pattern_at {:#x} 3 rw", 0x2000_0000u64 + 0x10_0000 * i as u64)).ok().and_then(|r| r.first().map(|a| u64::from_str_radix(a.trim_start_matches("0x"), 16).unwrap_or(0))).filter(|a| *a != 0).unwrap_or_else(|| p.pattern(3, "hole", "rw"))
+        } else if c.big && i == 0 {
+            p.pattern(1300, "hole", "rw")
         } else {
             p.pattern(3, "hole", "rw")
         };
@@ -198,7 +203,7 @@ fn run_e2e(c: &E2e) -> Vec<(String, String)> {
         p.set_gpr(t, RSP, rsp);
         p.start(t);
         sps.push(rsp);
-        regions.push((region, region + 3 * PAGE));
+        regions.push((region, region + if c.big && i == 0 { 1300 } else { 3 } * PAGE));
     }
     p.quiesce();
     let mut o = DumpOpts { sanitize: c.sanitize, ..Default::default() };
@@ -335,30 +340,35 @@ fn e2e_cases(thorough: bool) -> Vec<E2e> {
                 // place the interesting offsets at the end of the thread list
                 let nspin = n.saturating_sub(1).max(1);
                 let offsets: Vec<u64> = (0..nspin).map(|i| offs[(nspin - 1 - i) % offs.len()]).collect();
-                v.push(E2e { n, offsets, limit, ctx_pos: None, sanitize: false, low: false, below: false });
+                v.push(E2e { n, offsets, limit, ctx_pos: None, sanitize: false, low: false, below: false, big: false });
             }
         }
     }
     // crash context on a thread at position >= 20, with a limit that shortens the others
     for off in [8u64, 2048, 3000, 4088] {
-        v.push(E2e { n: 23, offsets: vec![off], limit: 0, ctx_pos: Some(20), sanitize: false, low: false, below: false });
-        v.push(E2e { n: 23, offsets: vec![off], limit: 3, ctx_pos: Some(21), sanitize: true, low: false, below: false });
+        v.push(E2e { n: 23, offsets: vec![off], limit: 0, ctx_pos: Some(20), sanitize: false, low: false, below: false, big: false });
+        v.push(E2e { n: 23, offsets: vec![off], limit: 3, ctx_pos: Some(21), sanitize: true, low: false, below: false, big: false });
     }
     // stacks in mappings below the executable (the dumper moves the entry-point mapping to the front of its list)
     for off in [0u64, 8, 2048, 4088] {
-        v.push(E2e { n: 4, offsets: vec![off], limit: -1, ctx_pos: None, sanitize: false, low: true, below: false });
-        v.push(E2e { n: 4, offsets: vec![off], limit: -1, ctx_pos: Some(0), sanitize: false, low: true, below: false });
-        v.push(E2e { n: 23, offsets: vec![off], limit: 0, ctx_pos: None, sanitize: false, low: true, below: false });
+        v.push(E2e { n: 4, offsets: vec![off], limit: -1, ctx_pos: None, sanitize: false, low: true, below: false, big: false });
+        v.push(E2e { n: 4, offsets: vec![off], limit: -1, ctx_pos: Some(0), sanitize: false, low: true, below: false, big: false });
+        v.push(E2e { n: 23, offsets: vec![off], limit: 0, ctx_pos: None, sanitize: false, low: true, below: false, big: false });
     }
+    // a stack region of more than 4 MiB (reads that need more than one batch / more than IOV_MAX pages)
+    for off in [8u64, 2048] {
+        v.push(E2e { n: 3, offsets: vec![off], limit: -1, ctx_pos: None, sanitize: false, low: false, below: false, big: true });
+    }
+    v.push(E2e { n: 3, offsets: vec![8], limit: -1, ctx_pos: Some(0), sanitize: false, low: false, below: false, big: true });
     // overflowed stacks: sp in the guard page below the stack mapping, with and without the size limit / sanitising
     for (n, limit, sanitize) in [(3usize, -1i64, false), (3, -1, true), (23, 0, false), (23, 0, true), (23, 3, false), (23, -1, false)] {
         for off in [8u64, 2048, 4088] {
-            v.push(E2e { n, offsets: vec![off], limit, ctx_pos: None, sanitize, low: false, below: true });
+            v.push(E2e { n, offsets: vec![off], limit, ctx_pos: None, sanitize, low: false, below: true, big: false });
         }
     }
     // sanitize + limit (the sanitiser sees a copy shorter than the sp offset)
     for off in [2047u64, 2048, 2056, 4095] {
-        v.push(E2e { n: 22, offsets: vec![off], limit: 0, ctx_pos: None, sanitize: true, low: false, below: false });
+        v.push(E2e { n: 22, offsets: vec![off], limit: 0, ctx_pos: None, sanitize: true, low: false, below: false, big: false });
     }
     if thorough {
         // every in-page offset 0..4095 at a position >= 20: N = 64 gives 43 such threads per puppet
@@ -370,10 +380,10 @@ fn e2e_cases(thorough: bool) -> Vec<E2e> {
             while offsets.len() < 63 {
                 offsets.push(8);
             }
-            v.push(E2e { n: 64, offsets: offsets.clone(), limit: 0, ctx_pos: None, sanitize: false, low: false, below: false });
-            v.push(E2e { n: 64, offsets, limit: -1, ctx_pos: None, sanitize: false, low: false, below: false });
+            v.push(E2e { n: 64, offsets: offsets.clone(), limit: 0, ctx_pos: None, sanitize: false, low: false, below: false, big: false });
+            v.push(E2e { n: 64, offsets, limit: -1, ctx_pos: None, sanitize: false, low: false, below: false, big: false });
         }
-        v.push(E2e { n: 40, offsets: vec![8, 2048, 4088], limit: 3, ctx_pos: Some(30), sanitize: false, low: false, below: false });
+        v.push(E2e { n: 40, offsets: vec![8, 2048, 4088], limit: 3, ctx_pos: Some(30), sanitize: false, low: false, below: false, big: false });
     }
     v
 }
